@@ -2,7 +2,8 @@
    processing for every chunking).  Only statements, each closed by [exact]. *)
 From Coq Require Import NArith List Bool.
 From AV Require Import Generated.Table Spec.Utf8 Spec.Vt Spec.Strip Spec.Sgr Model.Base Model.Utf8parse Model.Parser Model.Strip
-  Model.Wincon Proofs.TableFacts Proofs.ParserSim Proofs.StripMachine Proofs.StripSim Proofs.StripStr Proofs.WinconRuns.
+  Model.Wincon Proofs.TableFacts Proofs.ParserSim Proofs.StripMachine Proofs.StripSim Proofs.StripStr Proofs.WinconRuns
+  Generated.StripFn Proofs.StripGen.
 Import ListNotations.
 Local Open Scope N_scope.
 
@@ -125,3 +126,54 @@ Theorem c03_example_wincon :
     merge_runs (concat itss) = merge_runs its /\
     merge_runs its = [(style_default, [97]); (mkStyle (Some (CAnsi 1)) None None 0, [98; 99]); (style_default, [100])].
 Proof. vm_compute. do 4 eexists. repeat split; reflexivity. Qed.
+
+(* ---- the tie by translation (strip scanners) ---------------------------------------- *)
+
+(* Generated/StripFn.v (tools/gen_fn_strip.py, rewritten on every run) holds the translations of the
+   incremental iterators' `next` methods (StripStrIter, StripBytesIter) and of the scanners below
+   them.  Feeding chunks through them -- [g_bytes_chunks] / [g_str_chunks]: `strip_next` (token-pinned:
+   it returns a struct holding `&mut self.state`) copies the carried state in, the drained iterator
+   leaves the new one -- computes exactly what the hand model computes. *)
+Theorem c03_translated_bytes_iter_next_is_model :
+  forall it off, g_strip_bytes_iter_next it = bytes_next_result (next_bytes (bi_bytes it) off (bi_state it) (bi_utf8 it)).
+Proof. exact g_strip_bytes_iter_next_eq. Qed.
+
+Theorem c03_translated_str_iter_next_is_model :
+  forall it off, g_strip_str_iter_next it = str_next_result (next_str (si_bytes it) off (si_state it)).
+Proof. exact g_strip_str_iter_next_eq. Qed.
+
+Theorem c03_translated_bytes_chunks_is_model :
+  forall chunks st u,
+  g_bytes_chunks chunks st u =
+  match strip_bytes_chunks chunks st u with
+  | Some (pss, st', u') => Some (map (map p_bytes) pss, st', u')
+  | None => None
+  end.
+Proof. exact g_bytes_chunks_is_model. Qed.
+
+Theorem c03_translated_str_chunks_is_model :
+  forall chunks st,
+  g_str_chunks chunks st =
+  match strip_str_chunks chunks st with
+  | Some (pss, st') => Some (map (map p_bytes) pss, st')
+  | None => None
+  end.
+Proof. exact g_str_chunks_is_model. Qed.
+
+(* hence the translated incremental code refines the specification and agrees with the
+   translated one-shot code *)
+Theorem c03_translated_bytes_chunks_refine_spec :
+  forall chunks, bytes_ok (concat chunks) ->
+  exists pss st u,
+    g_bytes_chunks chunks Ground u8_new = Some (pss, st, u) /\
+    concat (map (@concat N) pss) = spec_strip (concat chunks) /\
+    Some (concat (map (@concat N) pss)) = g_stripped_bytes_into_vec (g_strip_bytes (concat chunks)).
+Proof. exact translated_bytes_chunks_refine_spec. Qed.
+
+Theorem c03_translated_str_chunks_refine_spec :
+  forall chunks, bytes_ok (concat chunks) -> Forall (fun c => valid_utf8 c = true) chunks ->
+  exists pss st,
+    g_str_chunks chunks Ground = Some (pss, st) /\
+    concat (map (@concat N) pss) = spec_strip (concat chunks) /\
+    Some (concat (map (@concat N) pss)) = g_strip_str_to_string (concat chunks).
+Proof. exact translated_str_chunks_refine_spec. Qed.
